@@ -71,7 +71,38 @@ def impl_eval(case):
                 out["front"] = q.get(timeout=5)
             except Exception:  # noqa: BLE001
                 out["front"] = ("err", "no result")
+        # witness search (never a verdict by itself: the driver checks the witness): a c-representation that is not
+        # componentwise above any returned vector shows that a Pareto-minimal vector is missing, whatever its size
+        if out["front"][0] == "ok" and len(case["base"]) >= 6:
+            out["front_witness"] = missing_front_witness(case, out["front"][1])
     return out
+
+
+def missing_front_witness(case, front):
+    import z3
+
+    W = core.all_worlds(case["n"])
+    conds = [(b, a) for _, b, a in case["base"]]
+    keys = [k for k, _, _ in case["base"]]
+    pos = {k: i for i, k in enumerate(sorted(keys))}          # the front's vectors are ordered by ascending key
+    eta = [z3.Int(f"e{i}") for i in range(len(conds))]
+    kap = [z3.Sum([eta[i] for i, c in enumerate(conds) if core.c_fal(c, w)] + [z3.IntVal(0)]) for w in W]
+    s = z3.Solver()
+    s.set("timeout", 20000)
+    s.add([e >= 0 for e in eta])
+    for c in conds:
+        V = [i for i, w in enumerate(W) if core.c_ver(c, w)]
+        F = [i for i, w in enumerate(W) if core.c_fal(c, w)]
+        s.add(z3.Or([z3.And([kap[v] < kap[f] for f in F] + [z3.BoolVal(True)]) for v in V] + [z3.BoolVal(False)]))
+    for v in front:
+        if len(v) != len(keys):
+            return None
+        lv = [v[pos[k]] for k in keys]                          # listing order
+        s.add(z3.Or([eta[i] < lv[i] for i in range(len(keys))]))
+    if s.check() == z3.sat:
+        m = s.model()
+        return [m.eval(e, model_completion=True).as_long() for e in eta]
+    return None
 
 
 def compare(case, impl, resp):
@@ -129,6 +160,15 @@ def compare(case, impl, resp):
                         fail("Pareto front contains a vector that is not a Pareto-minimal c-representation", extra, want)
                     elif missing:
                         fail("Pareto front misses a Pareto-minimal c-representation", got, missing)
+    # a driver-certified c-representation that is not above any returned vector: a Pareto-minimal vector is missing
+    if case.get("front") and impl.get("front_witness") and resp.get("witness") and impl["front"][0] == "ok":
+        if resp["witness"].split("|")[0] == "1":
+            keys = [k for k, _, _ in case["base"]]
+            pos = {k: i for i, k in enumerate(sorted(keys))}
+            wit = impl["front_witness"]
+            front = [[v[pos[k]] for k in keys] for v in impl["front"][1] if len(v) == len(keys)]
+            if all(any(wit[i] < v[i] for i in range(len(keys))) for v in front):
+                fail("Pareto front misses a Pareto-minimal c-representation", front, {"c-representation below no returned vector": wit})
     seen, out = set(), []
     for f in fails:
         if f["signature"] not in seen:
@@ -153,9 +193,13 @@ def driver_eval(cases, impls):
             fr = impl.get("front")
             if fr and fr[0] == "ok" and fr[1]:
                 B = max(B, max(max(v) for v in fr[1] if v) + 1 if any(fr[1]) else B)
-            B = min(B, 6 if len(c["base"]) <= 4 else 4)
+            B = min(B, 6 if len(c["base"]) <= 4 else (4 if len(c["base"]) <= 7 else 2))
             lines.append(f"cfront {c['n']} {B} {D}")
             idx.append((i, "front", B))
+            wit = impl.get("front_witness")
+            if wit:
+                lines.append(f"crep {c['n']} {D} 0 " + " ".join(str(x) for x in wit))
+                idx.append((i, "witness"))
     resp = core.driver_batch(lines)
     out = [dict() for _ in cases]
     for t, r in zip(idx, resp):
@@ -186,6 +230,19 @@ def run(ctx):
         b["queries"] = [[k, x, a] for k, x, a in b["queries"] if not ((core.f_atoms(x) | core.f_atoms(a)) - set(range(b["n"])))]
         b["front"] = (i % (3 if quick else 2) == 0) and len(b["base"]) <= 4
         b["front_timeout"] = 30 if quick else 120
+        cases.append(b)
+    # larger bases (9-10 conditionals over 6 atoms): more objectives than small inputs ever give the Pareto engine
+    for b in answers.gen_cases(ctx, 24 if quick else 100, (6, 6), (8, 10), [False], q_per=3, big=1.0):
+        if len(b["base"]) < 8 or len(b["base"]) > 9 or sum(1 for c in cases if c.get("big")) >= (6 if quick else 30):
+            continue
+        b = {k: v for k, v in b.items() if not k.startswith("_")}
+        # a conditional listed twice (under two keys, next to each other): at least two Pareto-minimal vectors that trade one impact
+        pos = ctx.rng.randrange(len(b["base"]))
+        dup = b["base"][pos]
+        b["base"] = b["base"][:pos + 1] + [[0, dup[1], dup[2]]] + b["base"][pos + 1:]
+        b["base"] = [[i + 1, x, a] for i, (_, x, a) in enumerate(b["base"])]     # keys follow the listing: the two copies are neighbours
+        b["queries"] = [q for q in b["queries"] if not ((core.f_atoms(q[1]) | core.f_atoms(q[2])) - set(range(b["sig"])))][:3]
+        b["front"], b["front_timeout"], b["big"] = True, 120, True
         cases.append(b)
     impls = pmap_nd(impl_eval, cases, min(ctx.procs, 8))
     resps = driver_eval(cases, impls)
